@@ -838,6 +838,16 @@ impl<'a> VisitMut for Rw<'a> {
                             _ => die(&format!("unsupported: debug_assert_eq! arguments in {}", self.fs.key)),
                         }
                     };
+                    // a condition outside the Verus subset (iterator `all`/`any` with a closure) is
+                    // replaced by an UNKNOWN boolean: the assertion then cannot be proved, and the
+                    // driver reports it only when a witness panics on the real crate
+                    let ctext = cond.to_token_stream().to_string();
+                    let cond: Expr = if ctext.contains(". all (") || ctext.contains(". any (") || ctext.contains(".all(") || ctext.contains(".any(") {
+                        self.bump("E8.debug_assert_unknown_condition");
+                        parse_ex("debug_condition_unknown()")
+                    } else {
+                        cond
+                    };
                     let mut st: Stmt = parse_quote!( if !( #cond ) { debug_assert_failed(); } );
                     self.visit_stmt_mut(&mut st);
                     out.push(st);
